@@ -4,7 +4,7 @@ import sys, json
 sys.path.insert(0, '/verif/harness')
 import drive
 r = json.load(open(sys.argv[1]))
-t = drive.run_behaviour(1, r['init'], r['hist'], len(r['hist']), int(sys.argv[2]) if len(sys.argv) > 2 else 0)
+t = drive.run_behaviour(r.get('tid', 1), r['init'], r['hist'], len(r['hist']), r.get('seed', 0))
 s = t['steps'][-1]
 print("HIST", json.dumps([a for a in r['hist'] if a['op'] not in ('NewDoc',)])[:1500])
 print("EXC", s['exc'], s.get('stage'), s.get('lexerr'))
